@@ -160,6 +160,9 @@ def struct_mutations(d):
         for k in F.JSON_KINDS:
             if k != ck:
                 out.append((list(p), "kind:" + k))
+        for v in {"number": ("zero", "neg", "huge", "frac"), "string": ("empty", "other", "long"),
+                  "array": ("empty", "half", "short"), "object": ("empty",)}.get(ck, ()):
+            out.append((list(p), "same:" + v))
     return out
 
 
@@ -186,8 +189,10 @@ def do_struct_sweep(ex, idx, op):
         CTX.counters["c10_struct_faults"] += 1
         ex.subcase_digests.add(O.digest(["struct", jpath, mutation]))
         ex.pending_fault = {"op": "cache_mutate", "jpath": jpath, "mutation": mutation}
+        if mutation.startswith("same:"):
+            ex.pending_fault["relaxed"] = True     # undetectable by any reader: completion only
         leaf = jpath[-1] if not isinstance(jpath[-1], int) else "[i]"
-        ex.probe("c10_mut_%s" % (mutation if mutation == "delete_key" else "kind"))
+        ex.probe("c10_mut_%s" % (mutation if mutation == "delete_key" else mutation.split(":")[0]))
         nv = len(ex.viol)
         pre_cache, pre_class = w.cache_json(), w.cache_class()
         sn = "%s/heal/%s" % (nonce, O.digest([jpath, mutation]))
